@@ -187,6 +187,10 @@ def sample_history(cfg, seed, hist):
 
 
 def run(tier, seed, rep):
+    # histories of public API calls and device changes on one object, then probes of the API-level properties
+    from .. import api_sessions
+    _api = api_sessions.explore(tier, seed, {'C16'})
+    rep.add_many([v for v in _api['violations'] if v['prop'] == 'C16'])
     cfgs = rep_configs(tier, seed)
     depth = 3 if tier == 'thorough' else 1
     jobs = []
@@ -205,7 +209,8 @@ def run(tier, seed, rep):
         edges += e
         states |= sts
         rep.add_many(res)
-    cov = dict(states=len(states), transitions=max(edges, 1), executions=total, traces_validated_against_impl=total,
+    cov = dict(api_session_histories=_api['histories'], api_session_states=_api['states'],
+               states=len(states), transitions=max(edges, 1), executions=total, traces_validated_against_impl=total,
                single_sensor_reads=nids, configurations=len(cfgs), exhaustive=True,
                bound=f'one representative model per predicate class x power class; register files: seed context, small '
                      f'values, all-0xFFFF/0x8000/0x7FFF; BFS over capability-changing histories of depth <= {depth} '
@@ -218,6 +223,11 @@ def run(tier, seed, rep):
 
 
 def replay(r):
+    if r.get('part') == 'api-session':
+        from .. import api_sessions
+        out = api_sessions.replay(r)
+        out['violations'] = [m for m in out['violations'] if m[0] == 'C16']
+        return out
     cfg = r['cfg']
     cfg['refused'] = tuple(cfg['refused'])
     vio, st, k = sweep(cfg, dict(fills(0))[r['fill']], r['history'], r['transport'])
